@@ -33,6 +33,13 @@ mk!(UsernameCasePreserved, SH_UP);
 mk!(OpaqueString, SH_OP);
 mk!(Nickname, SH_NI);
 
+/// an owned copy with a lot of unused capacity (in-place fast paths for owned inputs)
+fn roomy(a: &str) -> String {
+    let mut s = String::with_capacity(a.len() * 3 + 257);
+    s.push_str(a);
+    s
+}
+
 fn o(r: Result<Cow<'_, str>, Error>) -> RRes {
     obs(&r)
 }
@@ -64,11 +71,14 @@ fn all_forms<P: Mk>(kind: Kind, long_lived: &P, a: &str, b: &str) -> Vec<(&'stat
                         v.push((concat!($name, "/String"), o($recv.prepare(a.to_string()))));
                         v.push((concat!($name, "/Cow::Borrowed"), o($recv.prepare(Cow::Borrowed(a)))));
                         v.push((concat!($name, "/Cow::Owned"), o($recv.prepare(Cow::<str>::Owned(a.to_string())))));
+                        v.push((concat!($name, "/String with spare capacity"), o($recv.prepare(roomy(a)))));
                     } else {
                         v.push((concat!($name, "/&str"), o($recv.enforce(a))));
                         v.push((concat!($name, "/String"), o($recv.enforce(a.to_string()))));
                         v.push((concat!($name, "/Cow::Borrowed"), o($recv.enforce(Cow::Borrowed(a)))));
                         v.push((concat!($name, "/Cow::Owned"), o($recv.enforce(Cow::<str>::Owned(a.to_string())))));
+                        v.push((concat!($name, "/String with spare capacity"), o($recv.enforce(roomy(a)))));
+                        v.push((concat!($name, "/Cow::Owned with spare capacity"), o($recv.enforce(Cow::<str>::Owned(roomy(a))))));
                     }
                 };
             }
@@ -401,7 +411,7 @@ pub fn run(run: &Run) {
     run.set_rule(
         "Generator: (a) proptest inputs per profile (the pipeline generators of C04-C06) through prepare/enforce/compare in every API form {fresh new(), fresh \
          default(), one long-lived instance per thread, one instance shared by all 16 threads, static PrecisFastInvocation} x argument form {&str, String, \
-         Cow::Borrowed, Cow::Owned; for compare (&str,&str), (String,String), (&String,&str), (Cow,Cow)} while 16 threads run concurrently; (b) histories: \
+         Cow::Borrowed, Cow::Owned, String / Cow::Owned with spare capacity; for compare (&str,&str), (String,String), (&String,&str), (Cow,Cow)} while 16 threads run concurrently; (b) histories: \
          proptest sequences of up to 40 calls over a small input pool (so inputs recur after other profiles' calls) on long-lived/shared/static instances, \
          each step compared with the same call on a fresh instance made on a brand-new thread (so that thread-local state of the history cannot reach the reference); (c) first-use race: the checker re-executes itself N times (24 quick / 600 thorough, one child at a time); in each child 16 threads wait \
          on a barrier and make their very first library calls through the static API (a different profile per thread), followed by 240 generated calls, then a second phase in which 12 threads, kept together by a spin barrier, make the SAME first-time call at the same instant \
